@@ -34,7 +34,7 @@ def strategy(tier):
     @st.composite
     def s(draw):
         c, n, tp = draw(gens.cfg(max_dim=208 if thorough else 144, frames=(1, 45 if thorough else 20), allow_twopass=thorough,
-                                 slow_p=10 if thorough else 3, presets=(8, 8, 8, 7, 6, 5)))
+                                 slow_p=10 if thorough else 3, presets=(8, 8, 8, 7, 6, 5), exclude=("GRAIN", "2PASS", "MINQ0")))
         # bias the GOP shape
         if draw(st.booleans()):
             c["intra_period_length"] = draw(st.sampled_from([0, 1, 2, 3, 4, 5, 7, 8, 9, 15]))
